@@ -328,12 +328,38 @@ fn gen_node_desc(rng: &mut Rng, max_prev: usize) -> NodeDesc {
         NodeKind::Basic(rng.chance(1, 2))
     } else {
         let n = if rng.chance(1, 6) { rng.range(0, 1) } else { rng.range(2, max_prev as u64) } as usize;
-        let mut prev: Vec<Vec<u8>> = (0..n).map(|_| hash_from(rng).as_bytes().to_vec()).collect();
+        let mut prev: Vec<Vec<u8>> = if rng.chance(1, 2) {
+            (0..n).map(|_| hash_from(rng).as_bytes().to_vec()).collect()
+        } else {
+            crafted_hashes(rng, n)
+        };
         prev.sort();
         prev.dedup();
         NodeKind::Causal(prev)
     };
     NodeDesc { log, ts, kind }
+}
+
+/// `n` distinct 32-byte strings that share a common prefix of 1..=31 bytes and differ only in
+/// one later byte (the byte right after the prefix, a middle byte, or the last byte): an order
+/// that looks only at a prefix of the hashes cannot tell them apart.
+fn crafted_hashes(rng: &mut Rng, n: usize) -> Vec<Vec<u8>> {
+    let base = rng.bytes(32);
+    let prefix = rng.range(1, 31) as usize;
+    let pos = match rng.below(3) {
+        0 => prefix,
+        1 => 31,
+        _ => rng.range(prefix as u64, 31) as usize,
+    };
+    let mut vals: Vec<u8> = (0..=255u8).collect();
+    rng.shuffle(&mut vals);
+    (0..n.min(200))
+        .map(|i| {
+            let mut h = base.clone();
+            h[pos] = vals[i];
+            h
+        })
+        .collect()
 }
 
 fn prev_len(d: &NodeDesc) -> usize {
@@ -518,6 +544,33 @@ fn generate(args: &Args, cx: &mut Ctx) {
         d.kind = NodeKind::Causal(prev);
         let (h1, h2) = node_pair(&mut rng, &pools, &d, Some((true, true, true)), true);
         run_rt(cx, &nx, &h1, Some(&h2), 8);
+    }
+
+    // 0b. crafted `previous` sets: every common-prefix length 1..=31, sets of 2..16 hashes
+    for prefix in 1..=31usize {
+        for n in [2usize, 3, 8, 16] {
+            if args.tier == Tier::Quick && n == 3 {
+                continue;
+            }
+            let mut d = gen_node_desc(&mut rng, 4);
+            let base = rng.bytes(32);
+            let pos = if (prefix + n) % 2 == 0 { prefix } else { 31 };
+            let mut prev: Vec<Vec<u8>> = (0..n)
+                .map(|i| {
+                    let mut h = base.clone();
+                    h[pos] = (i as u8).wrapping_mul(37).wrapping_add(prefix as u8);
+                    h
+                })
+                .collect();
+            prev.sort();
+            prev.dedup();
+            let k = prev.len();
+            d.kind = NodeKind::Causal(prev);
+            let (ph, bl) = (rng.chance(1, 2), rng.chance(1, 2));
+            let (h1, h2) = node_pair(&mut rng, &pools, &d, Some((true, ph, bl)), true);
+            run_rt(cx, &nx, &h1, Some(&h2), k);
+            cx.out.count("rt crafted common-prefix previous set");
+        }
     }
 
     // 1. exhaustive: presence combinations × well-formed / not × the three extension types
@@ -750,7 +803,7 @@ fn main() {
     }
     generate(&args, &mut cx);
     cx.out.finish(
-        "rt: header value -> to_bytes -> item heads (compared with the model's encoding) -> decoded twice -> equal, re-encoded bytes equal, hash equal, verify true; all 8 presence combinations x well-formed/ill-formed x {(), user struct, Node basic/causal}; integers around every CBOR width change; causal previous sets of 0..16 (thorough 40) hashes built from two different wire orders. dec: single/double token-level mutations of valid encodings through the real decoder. non-trivial = causal header with >= 2 previous hashes, or optional-field presence pattern different from the previous case",
+        "rt: header value -> to_bytes -> item heads (compared with the model's encoding) -> decoded twice -> equal, re-encoded bytes equal, hash equal, verify true; all 8 presence combinations x well-formed/ill-formed x {(), user struct, Node basic/causal}; integers around every CBOR width change; causal previous sets of 0..16 (thorough 40) hashes — random digests and crafted hashes sharing a common prefix of every length 1..=31 bytes — each built from two different wire orders and decoded twice from the same bytes. dec: single/double token-level mutations of valid encodings through the real decoder. non-trivial = causal header with >= 2 previous hashes, or optional-field presence pattern different from the previous case",
         false,
     );
 }
